@@ -73,6 +73,11 @@ def _edits(kind, c, universe):
         md["k"] = "edited" if md.get("k") != "edited" else "edited2"
         d["nodes"][n] = md
         out.append(("node-metadata", d, None))
+        d = clone()
+        md = d["nodes"][n] if isinstance(d["nodes"][n], dict) else {}
+        md.update({"node": "other", "metadata": {"b": 2}})
+        d["nodes"][n] = md
+        out.append(("reserved-keys-in-node-metadata", d, None))
     if c["edges"]:
         d = clone()
         d["edges"] = d["edges"][1:]
@@ -81,6 +86,16 @@ def _edits(kind, c, universe):
         md = d["edges"][0][2]
         md["k"] = "edited" if md.get("k") != "edited" else "edited2"
         out.append(("hyperedge-metadata", d, None))
+        # metadata whose keys collide with the names a fingerprint is likely to use for its own fields (the text
+        # format leaves "weight" / "time" / "layer" keys behind): the real weight must still matter
+        d = clone()
+        d["edges"][0][2].update({"weight": 99, "nodes": [0], "metadata": {"a": 1}, "time": 3, "layer": "zz"})
+        out.append(("reserved-keys-in-hyperedge-metadata", d, None))
+        if c["weighted"]:
+            d2 = clone()
+            d2["edges"][0][2].update({"weight": 99, "nodes": [0], "metadata": {"a": 1}, "time": 3, "layer": "zz"})
+            d2["edges"][0][1] = d2["edges"][0][1] + 1
+            out.append(("reserved-keys-and-bumped-weight", d2, None))
         if c["weighted"]:
             d = clone()
             d["edges"][0][1] = d["edges"][0][1] + 1
